@@ -25,7 +25,7 @@ func init() {
 	Registry["C08"] = Spec{
 		Fn:          c08,
 		Level:       "exploration",
-		Rule:        "the response scripts of C03 (incl. failing ones) are replayed under segmentations of the server byte stream: whole, one byte per read, two pieces at every offset (all offsets for streams <= 600 B, else 96 sampled), random split vectors, all 2^(n-1) splits of short (<= 12 B) responses, with 0..3 virtual read-deadline expiries before each packet, and with every packet split after its first byte / at a random offset by a pause that would expire an armed read deadline; the stream cut after a random byte (server gone) under whole / one-byte / two-piece-near-the-cut / random delivery must fail with the same error class (io.EOF, io.ErrUnexpectedEOF, exception, callback error); read timeouts also expire while a client write is held back by the peer (streamed INSERT, no caller deadline: nothing may time the write out); every run is compared with the executable model (same oracle as C03) and a follow-up Ping must find the connection at a packet boundary. Proto level: library-encoded blocks and messages (plain and inside each kind of compressed frame) decoded through one-byte, half, data-with-EOF and random-chunk readers must give the values and consumption of the one-shot decode. Non-trivial = >=2 segments that split a field; distinct = (stream, segmentation)",
+		Rule:        "the response scripts of C03 (incl. failing ones) are replayed under segmentations of the server byte stream: whole, one byte per read, two pieces at every offset (all offsets for streams <= 600 B, else 96 sampled), random split vectors, all 2^(n-1) splits of short (<= 12 B) responses, with 0..3 virtual read-deadline expiries before each packet, and with every packet split after its first byte / at a random offset by a pause that would expire an armed read deadline; the stream cut after a random byte (server gone) under whole / one-byte / two-piece-near-the-cut / random delivery must fail with the same error class (io.EOF, io.ErrUnexpectedEOF, exception, callback error); read timeouts also expire while a client write is held back by the peer (streamed INSERT, no caller deadline: nothing may time the write out); every run is compared with the executable model (same oracle as C03) and a follow-up Ping must find the connection at a packet boundary. Proto level: the pass-through ColRaw column followed by a String column under whole / one-byte / half / chunked / two-piece delivery; library-encoded blocks and messages (plain and inside each kind of compressed frame) decoded through one-byte, half, data-with-EOF and random-chunk readers must give the values and consumption of the one-shot decode. Non-trivial = >=2 segments that split a field; distinct = (stream, segmentation)",
 		Assumptions: []string{"only read patterns a conforming io.Reader / net.Conn may produce"},
 		MinDistinct: 500,
 	}
@@ -277,6 +277,59 @@ func c08(r *core.Run) {
 				if derr != nil || got != want {
 					r.Violation("proto-segmentation:"+tn[:5]+":"+rn, fmt.Sprintf("%s (%s) via %s reader: err=%v, result %q, one-shot result %q", bc.TS, tn, rn, derr, got, want), map[string]any{"case": bc.Desc(), "transport": tn, "reader": rn})
 				}
+			}
+		}
+	}
+	// the pass-through column (proto.ColRaw) followed by another column: its bytes must be its own
+	// whatever arrives later and however the stream is cut
+	for k := 0; k < r.Pick(40, 400); k++ {
+		ci++
+		if !r.Take(ci) {
+			continue
+		}
+		rng := r.Rand(ci, "colraw")
+		rows := []int{1, 3, 40, 300}[rng.Intn(4)]
+		size := []int{1, 8, 16}[rng.Intn(3)]
+		ts := map[int]string{1: "UInt8", 8: "UInt64", 16: "UUID"}[size]
+		t0, _ := ref.ParseType(ts)
+		t1, _ := ref.ParseType("String")
+		vs0 := val.GenColumn(rng, t0, rows, val.GenOpt{})
+		vs1 := val.GenColumn(rng, t1, rows, val.GenOpt{})
+		var w ref.W
+		if err := ref.EncodeBlock(&w, 54460, &ref.Block{Info: ref.BlockInfo{Bucket: -1}, Rows: rows, Cols: []ref.Col{{Name: "raw", Type: ts, Vals: vs0}, {Name: "s", Type: "String", Vals: vs1}}}); err != nil {
+			continue
+		}
+		var want []byte
+		for _, v := range vs0 {
+			want = append(want, v.B...)
+		}
+		full := w.B
+		rs := rand.New(rand.NewSource(rng.Int63()))
+		readers := map[string]func() io.Reader{
+			"whole":         func() io.Reader { return bytes.NewReader(full) },
+			"one-byte":      func() io.Reader { return iotest.OneByteReader(bytes.NewReader(full)) },
+			"half":          func() io.Reader { return iotest.HalfReader(bytes.NewReader(full)) },
+			"random-chunks": func() io.Reader { return &chunkReader{r: bytes.NewReader(full), rng: rs} },
+		}
+		for o := 1; o < len(full); o += 1 + len(full)/60 {
+			o := o
+			readers[fmt.Sprintf("two-piece@%d", o)] = func() io.Reader { return io.MultiReader(bytes.NewReader(full[:o]), bytes.NewReader(full[o:])) }
+		}
+		for rn, mk := range readers {
+			r.Eval()
+			r.NonTrivial("colraw", ts, rows, segKind(rn), core.Hash(full))
+			raw := &proto.ColRaw{T: proto.ColumnType(ts), Size: size}
+			str := new(proto.ColStr)
+			var blk proto.Block
+			var derr error
+			if p := core.Recover(func() {
+				derr = blk.DecodeBlock(proto.NewReader(mk()), 54460, proto.Results{{Name: "raw", Data: raw}, {Name: "s", Data: str}})
+			}); p != "" {
+				r.Violation("proto-segmentation-panic:ColRaw", p, map[string]any{"reader": rn, "rows": rows, "type": ts})
+				continue
+			}
+			if derr != nil || !bytes.Equal(raw.Data, want) {
+				r.Violation("proto-segmentation:ColRaw:"+segKind(rn), fmt.Sprintf("ColRaw(%s) followed by a String column, %d rows, %s reader: err=%v, the raw column holds %x..., sent %x...", ts, rows, rn, derr, clip(raw.Data), clip(want)), map[string]any{"reader": rn, "rows": rows, "type": ts})
 			}
 		}
 	}
